@@ -1,4 +1,4 @@
-//@props C08 C20
+//@props C05 C08 C09 C20
 // Unit types: structs::add_types_recursive - the set of types reachable from a module-scope variable
 // (C08: exactly the transitive closure through pointer / array / binding-array bases and struct members)
 // and its cost (C20: a type is expanded only when the seen set strictly grew).
@@ -31,8 +31,8 @@ fn add_types_recursive(
         closed_upto(module, old(types)@, handle_index(ty)), // every finished type at or below `ty` already has its contents in the set (in-progress ancestors have larger handles)
     ensures
         smono(old(types)@, final(types)@), // [C08.closure-mono] nothing is removed
-        all_reached(module, final(types)@, handle_index(ty)), // [C08.closure-complete] every type reachable from `ty` through members, arrays, runtime arrays, pointers, binding arrays is in the set
-        new_reached(module, old(types)@, final(types)@, handle_index(ty)), // [C08.closure-sound] nothing is added that `ty` does not reach
+        all_reached(module, final(types)@, handle_index(ty)), // [C08.closure-complete] [C05.host-set] [C09.host-set] (the host-shareable set that decides layout assertions and derives is this closure) every type reachable from `ty` through members, arrays, runtime arrays, pointers, binding arrays is in the set
+        new_reached(module, old(types)@, final(types)@, handle_index(ty)), // [C08.closure-sound] [C05.host-set-sound] [C09.host-set-sound] nothing is added that `ty` does not reach
         new_closed(module, old(types)@, final(types)@),
     decreases unseen(module, old(types)@), // [C20.types-measure] a type is expanded only when the seen set strictly grew: at most one expansion per type»
 {
